@@ -239,6 +239,25 @@ def corpus():
                       _call(0, "where", _crit("a")), _call(0, "limit", {"k": "int", "v": 5})]
             cs.append({"steps": [["new", "mutable:%s@%s" % (kind, ep)]] + calls, "theme": "twin", "twin": True, "repeats": []})
         cs.append({"steps": [], "probe": kind, "theme": "probe", "twin": False, "repeats": []})
+    # immutable=False chains with REJECTED calls in the middle: the one object must be left as it was by each of them and
+    # the chain must still end in the immutable twin's statement (round-4 red team, C01-15)
+    bad_on = {"k": "crit", "f": {"k": "field", "n": "y", "t": _r(3)}, "op": "eq", "v": {"k": "int", "v": 1}}     # names t3: not in the statement
+    good_on = {"k": "crit", "f": {"k": "field", "n": "y", "t": _r(2)}, "op": "eq", "v": {"k": "int", "v": 1}}
+    for kind in ("QueryBuilder", "MySQLQueryBuilder", "PostgreSQLQueryBuilder", "ClickHouseQueryBuilder", "OracleQueryBuilder"):
+        cs.append({"steps": [["new", "mutable:" + kind], ["new", "Table:t1"], ["new", "Table:t2"], ["new", "Table:t3"],
+                             _call(0, "select", _s("x")),                                             # QueryException: no FROM yet
+                             _call(0, "from_", _r(1)), _call(0, "select", {"k": "field", "n": "a", "t": _r(1)}),
+                             ["call", 0, "join>on", [_r(2)], {}, [bad_on], {}],                        # JoinException: foreign table
+                             ["call", 0, "join>on", [_r(2)], {}, [{"k": "none"}], {}],                 # JoinException: no criterion
+                             ["call", 0, "join>using", [_r(2)], {}, [], {}],                           # JoinException: no fields
+                             ["call", 0, "join>on", [_r(1)], {}, [bad_on], {}],                        # rejected self-join
+                             _call(0, "delete"),                                                       # AttributeError guard
+                             _call(0, "insert", {"k": "int", "v": 1}),                                 # AttributeError guard
+                             ["call", 0, "rollup", [], {"vendor": _s("mysql")}],                       # RollupException
+                             _call(0, "where", _crit("a", 1)),
+                             ["call", 0, "join>on", [_r(2)], {}, [good_on], {}],
+                             _call(0, "into", _r(3)), _call(0, "limit", {"k": "int", "v": 3})],
+                   "theme": "twin", "twin": True, "repeats": []})
     # immutable=False twin
     cs.append({"steps": [["new", "mutable:QueryBuilder"], ["new", "Table:t1"], _call(0, "from_", _r(1)), _call(0, "select", _s("a")),
                          _call(0, "where", _crit("a", 1)), _call(0, "groupby", _s("a")), _call(0, "orderby", _s("a"))],
@@ -306,7 +325,13 @@ def _twin_run(case, recs, UA):
         if exc is not None or rec["exc"] is not None:
             if exc != rec["exc"]:
                 outB.append("!exception differs: immutable %r, mutable %r" % (exc, rec["exc"]))
-            break          # a rejected call ends the comparable part of the chain (what a rejection leaves behind is C14's matter)
+                break
+            if not rec.get("rejection"):
+                break      # a crash on ill-typed input (IndexError, TypeError ...) ends the comparable part of the chain
+            # a call REJECTED by pypika: in the immutable run the copy is discarded, i.e. the call did not happen; the one
+            # mutable object has to be left as it was, and the two chains go on
+            outB.append(world.render(mapB[0]))
+            continue
         if rec["ret"] == 0 or (recv == 0 and rec["ret_cls"] == rec["recv_cls"]):
             mapB[0] = res          # the chain: in mutable mode every call on the one object is supposed to return it
         else:
@@ -445,6 +470,15 @@ def oracle(case, outcome):
                                 "calls made on the base in between are visible" % (j, i, b["qualname"], b["recv"],
                                                                                    b.get("res_render"), a.get("res_render"))})
     tw = outcome.get("twin")
+    if tw:
+        # a rejected call leaves the one mutable object exactly as it was
+        for k, rec in enumerate(outcome["steps"]):
+            if rec["kind"] == "call" and rec.get("mutable_recv") and rec.get("rejection") and rec["recv"] == 0 and k > 0 \
+                    and tw["mutable"][k - 1] is not None and tw["mutable"][k] != tw["mutable"][k - 1]:
+                out.append({"signature": ["C01", rec["qualname"], "mutable-mode", "rejected-call-changed-object"],
+                            "what": "step %d: %s raised %s on the immutable=False builder but left it changed: %r -> %r "
+                                    "(on an immutable builder the rejected call leaves everything as it was)"
+                                    % (k, rec["qualname"], rec["exc"], tw["mutable"][k - 1], tw["mutable"][k])})
     if tw and tw.get("immutable") is not None:
         for k, (a, b) in enumerate(zip(tw["mutable"], tw["immutable"])):
             rec = outcome["steps"][k]
